@@ -112,6 +112,13 @@ def concatCmd (maxHeader : Nat) (outVersion : Nat) (srcs : List Bytes) : Except 
     if outVersion = 2 then .ok (pragma ++ ({ V2Header.new payload.length with indexOffset := 0 } : V2Header).bytes ++ payload)
     else .ok payload
 
+/-- `car list` (plain): the CIDs of the sections in order, through the block reader with default limits;
+    anything but a clean end is an error. -/
+def listCmd (H : HashFn) (src : Bytes) : Except Err (List Cid) :=
+  match scanBlockReader H {} true src with
+  | .error e => .error e
+  | .ok x => if x.ending == .eof then .ok (x.blocks.map (·.cid)) else .error .other
+
 /-- `lib.VerifyCar` (repaired, fixed C19/D16: the overlap rule applies only when there is an index). -/
 def verifyCar (H : HashFn) (o : ReadOpts) (file : Bytes) : Except Err Unit :=
   match readHeader o.maxHeader file with
